@@ -4,7 +4,7 @@ import os
 
 from . import cpuguard, env
 
-OPTION_SETS = (('-bb',), ('-O',), ('-bb', '-O'), ('-W', 'error::BytesWarning', '-b'))
+OPTION_SETS = (('-bb',), ('-O',), ('-bb', '-O'), ('-W', 'error::BytesWarning', '-b'), ('-W', 'error::DeprecationWarning'))
 
 
 def run(ctx, jobs, options, tmpdir, tz=None, cpu_seconds=120):
